@@ -77,26 +77,24 @@ Fixpoint hb_sim_loop (fuel : nat) (I T H : Z) (script : list (option Z)) (k : na
     match hb_closed st with
     | Some _ => st
     | None =>
-      let do_tick :=
-        if nt <=? H then
-          let st' := hb_step T st (HTick nt) in
-          match hb_closed st' with
-          | Some _ => st'
-          | None =>
-              let arr' := match nth_error script k with
-                          | Some (Some d) => hb_ins_sorted (nt + d) arr
-                          | _ => arr
-                          end in
-              hb_sim_loop f I T H script (S k) (nt + I) arr' st'
-          end
-        else hb_expire T st H in
-      match arr with
-      | a :: arr' =>
-          if a <=? nt then
-            (if a <=? H then hb_sim_loop f I T H script k nt arr' (hb_step T st (HResp a))
-             else hb_expire T st H)
-          else do_tick
-      | [] => do_tick
+      (* the next event is the earliest pending arrival if it is due before (or at) the next tick *)
+      match (match arr with a :: _ => if a <=? nt then Some a else None | [] => None end) with
+      | Some a =>
+          if a <=? H then hb_sim_loop f I T H script k nt (tl arr) (hb_step T st (HResp a))
+          else hb_expire T st H
+      | None =>
+          if nt <=? H then
+            let st' := hb_step T st (HTick nt) in
+            match hb_closed st' with
+            | Some _ => st'
+            | None =>
+                let arr' := match nth_error script k with
+                            | Some (Some d) => hb_ins_sorted (nt + d) arr
+                            | _ => arr
+                            end in
+                hb_sim_loop f I T H script (S k) (nt + I) arr' st'
+            end
+          else hb_expire T st H
       end
     end
   end.
